@@ -66,6 +66,15 @@ def colliding():
                 ({"outbound": {"attempts": None}}, {"outbound": {"attempts": 10, "backoff": "exponential", "tags": ["b", "c"]}}),
                 ({"inbound": {"backoff": "x"}, "outbound": {"backoff": "y"}}, {"inbound": {"attempts": 3, "backoff": "x", "tags": ["a"]}, "outbound": {"attempts": 10, "backoff": "y", "tags": ["b", "c"]}})]
         out.append((root, docs))
+    # inline types with one Go name that differ only in the default value
+    from vlib.valuecheck import collide_root
+
+    def conn(d):
+        return {"type": "object", "properties": {"host": {"type": "string"}, "port": {"type": "integer", "default": d}}, "required": ["host"]}
+    root = collide_root(conn(80), conn(443), key="w")
+    h = {"w": {"host": "x"}}
+    w = lambda p: {"w": {"host": "x", "port": p}}       # noqa: E731
+    out.append((root, [({"a": {"bC": h}, "aB": {"c": h}, "aBC": h, "a_bC": h}, {"a": {"bC": w(80)}, "aB": {"c": w(443)}, "aBC": w(443), "a_bC": w(80)})]))
     return out
 
 
